@@ -230,11 +230,15 @@ class FactEngine(object):
         def step(n, fs, ever, onpath, trail=()):
             if count[0] > cap:
                 return
-            fs = self._apply_kills(fs, self.kills.get(n.id))
             if nodes:
                 trail = trail + (n,)
             if n.id in tg:
+                # facts on arrival (before the target's own writes), as in facts_at()
                 out.append((fs, ever, trail) if nodes else (fs, ever) if history else fs)
+                count[0] += 1
+                return
+            fs = self._apply_kills(fs, self.kills.get(n.id))
+            if False:
                 count[0] += 1
                 return
             for (m, lab) in n.succs:
